@@ -12,17 +12,31 @@ module N :
 
   val sub : coq_N -> coq_N -> coq_N
 
+  val mul : coq_N -> coq_N -> coq_N
+
   val compare : coq_N -> coq_N -> comparison
 
   val eqb : coq_N -> coq_N -> bool
 
   val leb : coq_N -> coq_N -> bool
 
+  val ltb : coq_N -> coq_N -> bool
+
+  val pow : coq_N -> coq_N -> coq_N
+
   val pos_div_eucl : positive -> coq_N -> coq_N * coq_N
 
   val div_eucl : coq_N -> coq_N -> coq_N * coq_N
 
+  val div : coq_N -> coq_N -> coq_N
+
   val modulo : coq_N -> coq_N -> coq_N
+
+  val testbit : coq_N -> coq_N -> bool
+
+  val to_nat : coq_N -> nat
+
+  val of_nat : nat -> coq_N
 
   val eq_dec : coq_N -> coq_N -> bool
  end
